@@ -24,6 +24,12 @@ CLAIMED = {
     'C05': {'technique': 'interval analysis of accepted ranges, byte-lane provenance, directive dispatch table, unit-scaling expression shape',
             'level': 'exhaustive over the data directive handlers and the unit-conversion sites; partial (no string escapes / binfile / data_fill)',
             'note': NOTE},
+    'C06': {'technique': 'flow-sensitive taint from eval_expression to mask/narrowing sites, field reconstruction from the masks, interval analysis '
+                         '(abstract interpretation of pass 2 with range-predicate refinement) of the masked value against the field width',
+            'level': 'exhaustive over every constant mask and 8/16-bit emit of a symbol-derived value in asm/*.cpp; sites whose check is not an '
+                     'interval (same-page tests, table limits, path-dependent checks) are observations; partial: unmasked insertions, '
+                     'register parsers and encoding injectivity are not decided',
+            'note': NOTE},
     'C08': {'technique': 'interval analysis (abstract interpretation) of decoder return values and range-loop increments',
             'level': 'exhaustive over every return of the 59 single-instruction decoders and every range loop; lower '
                      'bounds the interval domain cannot establish are listed as observations (not decided)',
